@@ -111,6 +111,33 @@ def damage(rng, data, kind):
         return bytes(b)
     if kind == 'text':
         return b'This is not a well log.\n' * rng.randint(1, 30)
+    if kind == 'foreign':
+        # whole and cut-off files of the other formats the type sniffer knows (cut at line / field boundaries)
+        las = [b'~Version Information Section', b'VERS. 2.0 : CWLS LOG ASCII STANDARD - VERSION 2.0', b'WRAP. NO : One line per depth step',
+               b'~Well Information Section', b'STRT.M 100.0 : START', b'STOP.M 101.0 : STOP', b'STEP.M 0.5 : STEP', b'NULL. -999.25 : NULL',
+               b'~Curve Information Section', b'DEPT.M : depth', b'GR.GAPI : gamma', b'~A', b'100.0 1.0', b'100.5 2.0', b'101.0 3.0']
+        dat = [b'UTIM Unix Time sec', b'DATE Date ddmmyy', b'TIME Time hhmmss', b'WAC Wits Activity Code unitless', b'UTIM DATE TIME WAC',
+               b'1165665017 09Dec06 11-50-17 0', b'1165665077 09Dec06 11-51-17 0']
+        pick = rng.choice(['las', 'las-cut', 'las-cut', 'las-comment', 'dat', 'dat-cut', 'xml', 'pdf', 'ps', 'zip', 'tiff', 'jpeg', 'exe', 'lisver', 'ebcdic'])
+        nl = rng.choice([b'\n', b'\r\n'])
+        if pick == 'las':
+            return nl.join(las) + nl
+        if pick == 'las-cut':
+            k = rng.randint(1, 4)
+            return nl.join(las[:k]) + rng.choice([b'', nl, nl + nl, nl + b'# comment' + nl])
+        if pick == 'las-comment':
+            return b'# exported' + nl + nl + nl.join(las[:rng.randint(1, len(las))]) + nl
+        if pick == 'dat':
+            return nl.join(dat) + nl
+        if pick == 'dat-cut':
+            return nl.join(dat[:rng.randint(1, 5)]) + rng.choice([b'', nl])
+        if pick == 'lisver':
+            return rng.choice([b'', b'\n']) + b'=LIS VERIFICATION by PETROLOG rev 5.2\n' + b'text\n' * rng.randint(0, 5)
+        if pick == 'ebcdic':
+            return bytes(rng.choice([0x40, 0xc3, 0xf0, 0xf1, 0xc1, 0xd5]) for _ in range(rng.choice([10, 3200, 3600])))
+        magic = {'xml': b'<?xml version="1.0"?>\n<a/>', 'pdf': b'%PDF-1.4\n%', 'ps': b'%!PS-Adobe-3.0\n', 'zip': b'PK\x03\x04\x14\x00',
+                 'tiff': rng.choice([b'II*\x00', b'MM\x00*']), 'jpeg': b'\xff\xd8\xff\xe0\x00\x10JFIF\x00', 'exe': b'MZ\x90\x00'}[pick]
+        return magic[:rng.randint(1, len(magic))] + bytes(rng.randrange(256) for _ in range(rng.choice([0, 0, 40])))
     if kind == 'random':
         return bytes(rng.randrange(256) for _ in range(rng.randint(1, 600)))
     if kind == 'zeros':
@@ -118,7 +145,7 @@ def damage(rng, data, kind):
     raise ValueError(kind)
 
 
-MUST_NOT_CONVERT = ('empty', 'text', 'random', 'zeros', 'header')
+MUST_NOT_CONVERT = ('empty', 'text', 'random', 'zeros', 'header', 'foreign')
 
 
 def design(ctx):
@@ -187,7 +214,7 @@ def make_dir(rng, ctx, root, same_stem=False, carry=False, probe=None, full=Fals
         k += 1
         files.append((rel, 'valid-' + fmt, data))
     for i in range(nbad):
-        kind = rng.choice(['empty', 'truncate', 'truncate', 'flip', 'flip', 'header', 'text', 'random', 'zeros'])
+        kind = rng.choice(['empty', 'truncate', 'truncate', 'flip', 'flip', 'header', 'text', 'random', 'zeros', 'foreign', 'foreign', 'foreign'])
         fmt, base = rng.choice(valid_data)
         data = damage(rng, base, kind)
         rel = stems[k] + rng.choice(EXT[fmt] + ['.txt', ''])
@@ -538,7 +565,8 @@ def run(ctx):
         fdir = os.path.join(wd, 'fault_' + fmt)
         os.makedirs(fdir)
         positions = list(range(0, min(len(base), ctx.pick(96, 512)), ctx.pick(3, 1))) + list(range(512, len(base), ctx.pick(211, 61)))
-        variants = [('empty', b''), ('text', damage(frng, base, 'text')), ('zeros', damage(frng, base, 'zeros')), ('header', damage(frng, base, 'header'))]
+        variants = [('empty', b''), ('text', damage(frng, base, 'text')), ('zeros', damage(frng, base, 'zeros')), ('header', damage(frng, base, 'header'))] + \
+                   [('foreign', damage(frng, base, 'foreign')) for _ in range(12)]
         for p in positions:
             variants.append(('truncate@%d' % p, base[:p]))
             for name, f in (('bit0', lambda x: x ^ 1), ('bit7', lambda x: x ^ 0x80), ('ff', lambda x: 0xFF if x != 0xFF else 0), ('00', lambda x: 0 if x else 0xFF)):
@@ -556,7 +584,7 @@ def run(ctx):
             ctx.case(('fault', fmt, name), True)
             try:
                 r = with_alarm(60, conv[fmt], pin, 'first', pout, Slice.Slice(), set(), 16, '.3f')
-                if name in ('empty', 'text', 'zeros', 'header') and status_of(r) == 'ok' and r.las_count > 0:
+                if name in ('empty', 'text', 'zeros', 'header', 'foreign') and status_of(r) == 'ok' and r.las_count > 0:
                     ctx.fail('%s converter reports a %s file as converted: %r' % (fmt, name, r), dict(fmt=fmt, fault=name),
                              sig=dict(kind='bad-file-converted', converter=fmt, cls=name))
             except Watchdog:
